@@ -319,6 +319,16 @@ def build(env, spec):
     m.F = F
     m.f = f
     m.h = h
+    if spec.get('temporary_composite') and F is not f:
+        # the user never keeps the composite function itself (steps called on an inline `f + w * h`): only the library's
+        # registry refers to it from here on, and what was declared on it still belongs to the model
+        m.fconstraints = [(None, c) for (_, c) in m.fconstraints]
+        m.flmis = [(None, psd) for (_, psd) in m.flmis]
+        m.functions = [g for g in m.functions if g.get_is_leaf()]
+        m.F = None
+        F = None
+        import gc
+        gc.collect()
     return m
 
 
@@ -326,7 +336,7 @@ def default_values():
     """generic input values used by replays when the counter-model's own parameters give an SDP the real numeric
     solver cannot solve (the structural choices of the counterexample are kept)"""
     base = dict(mu=0.1, L=1.0, M=1.0, D=1.0, beta=1.0, rho=0.5, R=1.0, w_h=1.0, h_mu=0.1, h_L=2.0, h_M=1.0, h_D=1.0,
-                h_beta=1.0, h_rho=0.5, lf=2.0, R2=2.0, lnew=2.0, tol=0.05, reg=1e-3, a_before=0.5, a_after=-0.5, L0=1.0, L1=2.0)
+                h_beta=1.0, h_rho=0.5, lf=2.0, R2=2.0, lnew=2.0, tol=0.05, reg=1e-3, a_before=0.5, a_after=-0.5, L0=1.0, L1=2.0, Lnew=3.0)
     for i in range(4):
         base.update({"gamma%d" % i: 0.5, "eps%d" % i: 0.1, "c%d" % i: 1.0, "d%d" % i: 0.5, "l%d" % i: 2.0})
     alt = dict(base)
